@@ -129,6 +129,7 @@ func runOnce(t *testing.T, w World, tape *Tape) (res RunResult) {
 		}()
 		synctest.Test(t, func(t *testing.T) {
 			s = newSim(tape)
+			s.Prop = w.Prop
 			cur.Store(s)
 			defer cur.Store(nil)
 			defer func() {
